@@ -75,6 +75,7 @@ FAM = {
         'V': (((3, 2),), lambda b: dense(b, S(2)), ''),
         'P': ((), lambda: IndexOperator(IDX, in_structure=S(3)), ''),
         'U': ((), lambda: IndexOperator(UIDX, in_structure=S(3), unique_indices=True), ''),
+        'Pa': ((), lambda: IndexOperator(jnp.array([2, -1, 0, -3]), in_structure=S(3)), ''),
         'Mk': ((), lambda: IndexOperator(MASK, in_structure=S(3), out_structure=S(2)), ''),
         'Sl': ((), lambda: IndexOperator(slice(0, 2), in_structure=S(3)), ''),
         'Rs': ((), lambda: ReshapeOperator((3, 1), in_structure=S(3)), ''),
@@ -128,6 +129,7 @@ FAM = {
         'I': ((), lambda: IdentityOperator(tree_()), ''),
         'k': (((),), lambda k: HomothetyOperator(k, tree_()), 'nz'),
         'D': (((3,),), lambda d: DiagonalOperator(d, in_structure=tree_()), ''),
+        'Dx': (((3,),), lambda d: DiagonalOperator(d, axis_destination=0, in_structure={'a': S(3), 'b': S(3, 2)}), ''),
         'Rv': ((), lambda: RavelOperator(in_structure=tree_()), ''),
         'Rl': ((), lambda: RavelOperator(-1, -1, in_structure=tree_()), ''),
         'Ix': ((), lambda: IndexOperator((..., UIDX), in_structure=tree_(), unique_indices=True), ''),
